@@ -113,7 +113,7 @@ impl<K: VClone + 'static, V: VClone + 'static> CacheStore<K, V> {
                 ==> r == Some(old(self).store.view()[*key].value) && final(self).store.view() == old(self).store.view(),   // #hit_returns_the_value_stored_under_that_key [C10]
             old(self).store.view().contains_key(*key) && expired(old(self).store.view()[*key], old(self).ttl, final(clk).now@)
                 ==> r is None && final(self).store.view() == old(self).store.view().remove(*key),   // #expired_entry_is_removed_and_misses [C10]
-            final(self).ttl == old(self).ttl && final(self).store.cap() == old(self).store.cap() && final(self).store.kind() == old(self).store.kind(),   // #frame
+            final(self).ttl == old(self).ttl && final(self).store.cap() == old(self).store.cap() && final(self).store.kind() == old(self).store.kind(),   // #shared_state_handles_and_configuration_are_left_untouched [C10]
             *final(tr) == (Trace { store_gets: old(tr).store_gets.push(key_id(*key)), ..*old(tr) }),   // #lookup_recorded
     //@body CacheStore::get file=store
 
@@ -123,7 +123,7 @@ impl<K: VClone + 'static, V: VClone + 'static> CacheStore<K, V> {
                 && old(clk).now@ <= final(self).store.view()[key].inserted_at.t <= final(clk).now@,   // #insert_stores_the_value_under_its_key_stamped_now [C10]
             forall|k: K| #![trigger final(self).store.view().contains_key(k)] k != key && final(self).store.view().contains_key(k) ==> old(self).store.view().contains_key(k) && final(self).store.view()[k] == old(self).store.view()[k],   // #insert_never_changes_another_keys_value [C10]
             final(self).store.view().len() <= final(self).store.cap(),   // #size_bounded_by_capacity (by the containers' assumed contract)
-            final(self).ttl == old(self).ttl && final(self).store.cap() == old(self).store.cap() && final(self).store.kind() == old(self).store.kind(),   // #frame
+            final(self).ttl == old(self).ttl && final(self).store.cap() == old(self).store.cap() && final(self).store.kind() == old(self).store.kind(),   // #shared_state_handles_and_configuration_are_left_untouched [C10]
             *final(tr) == (Trace { store_inserts: old(tr).store_inserts.push((key_id(key), value)), ..*old(tr) }),   // #insert_recorded
     //@body CacheStore::insert file=store
 
@@ -151,7 +151,7 @@ impl<Req, Res: VClone + 'static, E, K: VClone + 'static, F: Fn(&Req) -> K> Cache
     pub fn poll_ready(&mut self, cx: &mut Context) -> (r: Poll<Result<(), CacheError<E>>>)
         ensures
             r matches Poll::Ready(Ok(_)) ==> final(self).inner.ready@,   // #ready_only_when_inner_ready [C20]
-            final(self).store == old(self).store && final(self).config == old(self).config,   // #frame
+            final(self).store == old(self).store && final(self).config == old(self).config,   // #shared_state_handles_and_configuration_are_left_untouched [C10]
     //@body Cache::poll_ready@Service
 
     pub fn call(&mut self, req: Req, clk: &mut Clock, Tracked(tr): Tracked<&mut Trace<Req, Res, E>>) -> (result: Result<Res, CacheError<E>>)
@@ -164,7 +164,7 @@ impl<Req, Res: VClone + 'static, E, K: VClone + 'static, F: Fn(&Req) -> K> Cache
             final(tr).calls == 1 ==> final(tr).done == 1 && final(tr).last_req == Some(req),   // #a_miss_calls_the_inner_service_once_with_the_request [C10,C20]
             final(tr).last_done matches Some(Ok(v)) ==> result == Ok::<Res, CacheError<E>>(v) && final(tr).store_inserts.len() == 1 && final(tr).store_inserts[0].1 == v,   // #a_successful_response_is_returned_and_stored_once [C10,C20]
             final(tr).last_done matches Some(Err(e)) ==> result == Err::<Res, CacheError<E>>(CacheError::Inner(e)) && final(tr).store_inserts.len() == 0,   // #errors_are_returned_unchanged_and_never_cached [C10,C20]
-            final(self).store == old(self).store && final(self).config == old(self).config,   // #frame
+            final(self).store == old(self).store && final(self).config == old(self).config,   // #shared_state_handles_and_configuration_are_left_untouched [C10]
     //@body Cache::call@Service
 }
 /// CacheLayer::shared() / SharedCacheLayer: one store for every service the layer produces
